@@ -54,12 +54,24 @@ func c01Specs(tier string) []*Spec {
 	addNarrow := func(name string, cfg Cfg, depth int) {
 		keys := bs("a")
 		pr := probesFor(keys)
-		a := Alpha{Writes: true, Save: true, LVFO: true, DelFrom: true, ReadAll: true}
+		a := Alpha{Writes: true, Save: true, LVFO: true, DelFrom: true, ReadAll: true, Hold: true}
 		specs = append(specs, &Spec{ID: "C01", Name: name, Cfg: cfg, Keys: keys, Vals: bs("x", "y"), MaxDepth: depth, MaxMaint: 2, Weight: 8,
 			Alphabet: a.Ops, Oracles: []Oracle{oracleReads(pr), {Name: "reads-again", Fn: oracleReads(pr).Fn}}})
 	}
+	// held snapshots: ImmutableTrees obtained once and read again after every later operation (commits, pruning
+	// of other versions, rollbacks of other versions): the sequential shadow of C06
+	addHold := func(name string, cfg Cfg, depth int) {
+		pr := probesFor(keysA)
+		a := c01Alpha()
+		a.Hold, a.SetNil, a.RemoveAbsent = true, false, false
+		a.Reopen = nil
+		specs = append(specs, &Spec{ID: "C01", Name: name, Cfg: cfg, Keys: keysA, Vals: bs("x"), MaxDepth: depth, MaxMaint: 2, Weight: 8,
+			Alphabet: a.Ops, Oracles: []Oracle{oracleReads(pr)}})
+	}
 	vals := bs("x", "")
 	if tier == "quick" {
+		addHold("hold/default/d6", defaultCfg, 6)
+		addHold("hold/cache1000-nofast/d6", Cfg{Fast: false, Cache: 1000}, 6)
 		addNarrow("cache1000/1key-narrow/d8", Cfg{Fast: true, Cache: 1000}, 8)
 		addNarrow("cache1000-nofast/1key-narrow/d8", Cfg{Fast: false, Cache: 1000}, 8)
 		addNarrow("cache2-nofast/1key-narrow/d8", Cfg{Fast: false, Cache: 2}, 8)
@@ -75,6 +87,9 @@ func c01Specs(tier string) []*Spec {
 		return specs
 	}
 	add("default/a-ab-b/d7", defaultCfg, keysA, vals, 7, 2)
+	addHold("hold/default/d7", defaultCfg, 7)
+	addHold("hold/cache1000-nofast/d6", Cfg{Fast: false, Cache: 1000}, 6)
+	addHold("hold/cache3/d6", Cfg{Fast: true, Cache: 3}, 6)
 	addNarrow("cache1000/1key-narrow/d10", Cfg{Fast: true, Cache: 1000}, 10)
 	addNarrow("cache1000-nofast/1key-narrow/d10", Cfg{Fast: false, Cache: 1000}, 10)
 	addNarrow("cache2-nofast/1key-narrow/d10", Cfg{Fast: false, Cache: 2}, 10)
